@@ -386,8 +386,12 @@ def rtFrom (viaParse : Bool) (src : Except String V) (impl : String) : Verdict :
           | [h1, mid, _] =>
             (match mid.splitOn " " with
              | [l2, h2] =>
-               if h2 = h1 ∧ l2 = toString (if h1 = "-" then 0 else h1.length / 2) then []
-               else [(prop, s!"round trip of a {v0.kind}: encoded {h1.take 120}, re-encoded {h2.take 120} (size {l2})")]
+               (if h2 = h1 ∧ l2 = toString (if h1 = "-" then 0 else h1.length / 2) then []
+                else [(prop, s!"round trip of a {v0.kind}: encoded {h1.take 120}, re-encoded {h2.take 120} (size {l2})")]) ++
+               -- C06 on the value the DECODER built: the size it reports is the number of bytes it encodes to
+               (if h2 ≠ "err2" ∧ l2 ≠ toString (if h2 = "-" then 0 else h2.length / 2) then
+                  [("C06", s!"a decoded {v0.kind} reports size {l2} and encodes to {if h2 = "-" then 0 else h2.length / 2} bytes ({h2.take 120})")]
+                else [])
              | _ => [(prop, s!"round trip of a {v0.kind}: {mid.take 100}")])
           | _ => if impl.startsWith "err1" then [] else [(prop, s!"round trip of a {v0.kind} fails: {impl.take 160}")]
         { model := m, more := o }
@@ -415,6 +419,10 @@ def rtw : Handler := fun args impl =>
            -- (a) a conformant frame parsed and encoded again is the frame itself (flag "w": no known exception applies)
            (if rest = ["w"] ∧ b1 ≠ wire ∧ b1 ≠ "err1" then
               [("C05", s!"parsed {v.kind} re-encodes to {b1.take 120}, the frame was {wire.take 120}")] else []) ++
+           -- (a') … and when the re-encoding is SHORTER than the frame, bytes the switch put on the wire are not in the
+           -- parsed message at all (C04: nothing present on the wire is dropped)
+           (if rest = ["w"] ∧ b1 ≠ "err1" ∧ b1.length < wire.length ∧ b1.length ≥ 16 then
+              [("C04", s!"parsed {v.kind} holds fewer bytes than the frame carried: re-encoded {b1.length / 2} of {wire.length / 2} bytes ({wire.take 160})")] else []) ++
            -- (b) whatever the library encodes must follow the wire grammar (kinds the walker knows)
            (match (if rest = ["w"] then ofHex b1 else none) with
             | some bs =>
